@@ -1204,3 +1204,4 @@ V("C03", "twin-join-concatenate-axis-zero", TRJ, "        time = np.concatenate(
 V("C03", "stack-vstack-instead-of-hstack", TRJ, "        xyz = np.hstack((self.xyz, other.xyz))", "        xyz = np.concatenate((self.xyz, other.xyz), axis=0)", "C03-R7", "Trajectory.stack")
 V("C03", "twin-stack-concatenate-axis-one", TRJ, "        xyz = np.hstack((self.xyz, other.xyz))", "        xyz = np.concatenate((self.xyz, other.xyz), axis=1)", None)
 V("C03", "slice-time-not-sliced", TRJ, "        time = self.time[key]\n        unitcell_lengths, unitcell_angles = None, None", "        time = self.time\n        unitcell_lengths, unitcell_angles = None, None", "C03-R7", "Trajectory.slice")
+V("C10", "y-range-single-copy-offset-in-triclinic-cells", NLC, "            if (usePeriodic && triclinic) {\n                // A voxel", "            if (usePeriodic && triclinic && false) {\n                // A voxel", "C10-R5", "Voxels::getNeighbors")
